@@ -76,13 +76,13 @@ type caseInfo struct {
 func TestC23(t *testing.T) {
 	r := vlib.Start(t, "C23", vlib.LevelExploration)
 	defer r.Finish()
-	r.SetRule("case = a set of 1..40 signed SuffrageExpelOperations (1..6 nodes; one case in 150 is large: 1200..1600 operations of 30..50 nodes, lookups for 6 of the nodes, one remove-by-height taking out several hundred and one remove-by-fact of about 4/5 of the rest, so that single calls cross internal batch sizes such as 333; ranges [start,end] inside a 20-height window, several per node, some starting above later query heights) stored in a real TempPool on a leveldb MemStorage; every height of the window +-2 is queried with TraverseSuffrageExpelOperations (callback always continues) and SuffrageExpelOperation(h,node) for every node, then RemoveSuffrageExpelOperationsByHeight / ...ByFact are applied and everything is queried again; distinct = multiset of (node,start,end) relative to the window base; non-trivial = at least 2 operations and at least one query height covered by some but not all operations")
+	r.SetRule("case = a set of 1..40 signed SuffrageExpelOperations (1..6 nodes; one case in 150 is large: 1200..1600 operations of 30..50 nodes, lookups for 6 of the nodes, one remove-by-height taking out several hundred and one remove-by-fact of about 4/5 of the rest, so that single calls cross internal batch sizes such as 333; ranges [start,end] inside a 20-height window, several per node, some starting above later query heights) stored in a real TempPool on a leveldb MemStorage; every height of the window +-2 is queried with TraverseSuffrageExpelOperations (callback always continues) and SuffrageExpelOperation(h,node) for every node, then 1..4 RemoveSuffrageExpelOperationsByHeight calls (heights random, not monotonic, half of the later ones the same height again or a lower one) interleaved with further sets (half of them ranges which already ended at or before the last removal height), a ...ByFact removal and possibly more sets and by-height removals follow, everything is queried again after every removal against the model applied step by step; distinct = multiset of (node,start,end) relative to the window base; non-trivial = at least 2 operations and at least one query height covered by some but not all operations")
 	r.Assume("only valid expel facts are stored (start > genesis, start <= end), as IsValid guarantees for operations reaching the pool")
 	r.Assume("operations are identified by fact hash; two operations with the same (node,start,end) have the same fact hash and the pool keeps the one stored last (Put)")
 
 	g := newRig()
 
-	ncases := r.N(300, 3500)
+	ncases := r.N(200, 2400)
 	r.WithWatchdog(time.Duration(r.N(15, 90))*time.Minute, "C23 workload", func() { run(r, g, ncases) })
 
 	if r.Counter("ops_visited") == 0 || r.Counter("lookup_expected_found") == 0 {
@@ -352,51 +352,82 @@ func run(r *vlib.Run, g *rig, ncases int) {
 		}
 
 		// remove by height
-		rounds := 1 + rng.Intn(3)
-		if large {
-			rounds = 1
+		// remove by height, interleaved with further sets: the heights are not
+		// monotonic, are repeated, and operations which already ended at or
+		// before an earlier removal height are stored between two removals
+		prevRh := int64(-1)
+		heightRounds := func(rounds int) {
+			for k := 0; k < rounds && ok; k++ {
+				if prevRh >= 0 && rng.Intn(3) > 0 {
+					nadd := 1 + rng.Intn(8)
+					for i := 0; i < nadd; i++ {
+						s0 := base0 + rng.Int63n(win)
+						e0 := s0 + rng.Int63n(base0+win-s0)
+						if rng.Intn(2) == 0 && prevRh > base0 { // ended at or before the last removal height
+							e0 = base0 + rng.Int63n(prevRh-base0+1)
+							s0 = base0 + rng.Int63n(e0-base0+1)
+						}
+						add(rng.Intn(nnodes), s0, e0)
+						r.Count("ops_stored_between_removals", 1)
+						if e0 <= prevRh {
+							r.Count("ops_stored_already_ended_at_last_removal_height", 1)
+						}
+					}
+					for f := range model {
+						before[f] = true // stored; whether it is seen is the traverse check's business
+					}
+				}
+				rh := base0 - 2 + rng.Int63n(win+5)
+				switch {
+				case large:
+					rh = base0 + 12 + rng.Int63n(3) // takes out several hundred at once, leaves several hundred
+				case prevRh >= 0 && rng.Intn(2) == 0:
+					rh = prevRh - rng.Int63n(3) // the same height again, or a lower one
+					r.Count("remove_by_height_repeated_or_lower", 1)
+				}
+				prevRh = rh
+				info := caseInfo{Case: ci, Ops: desc(), Phase: "remove-by-height", Removed: fmt.Sprintf("h=%d", rh)}
+				panicked := r.Guard("RemoveSuffrageExpelOperationsByHeight", info, func() {
+					if err := pool.RemoveSuffrageExpelOperationsByHeight(base.Height(rh)); err != nil {
+						r.Violation("RemoveByHeight:error", err.Error(), info)
+					}
+				})
+				if panicked {
+					ok = false
+					break
+				}
+				r.Count("remove_by_height_calls", 1)
+				gone := map[string]rec{}
+				for f, x := range model {
+					if x.End <= rh {
+						gone[f] = x
+						delete(model, f)
+					}
+				}
+				r.Count("remove_by_height_expected_removed", len(gone))
+				maxSet(r, "max_removed_by_one_remove_by_height", len(gone))
+				var after map[string]bool
+				after, ok = queryAll(fmt.Sprintf("after-remove-by-height(%d)", rh))
+				if !ok {
+					break
+				}
+				for f, x := range gone {
+					if after[f] {
+						r.Violation("RemoveByHeight:kept-operation-ended-at-or-before", fmt.Sprintf("remove-by-height(%d) kept %s", rh, x), info)
+					}
+				}
+				for f, x := range model {
+					if before[f] && !after[f] {
+						r.Violation("RemoveByHeight:removed-operation-ending-later", fmt.Sprintf("remove-by-height(%d) removed %s which ends after it", rh, x), info)
+					}
+				}
+				before = after
+			}
 		}
-		for k := 0; k < rounds && ok; k++ {
-			rh := base0 - 2 + rng.Int63n(win+5)
-			if large {
-				rh = base0 + 12 + rng.Int63n(3) // takes out several hundred at once, leaves several hundred
-			}
-			info := caseInfo{Case: ci, Ops: desc(), Phase: "remove-by-height", Removed: fmt.Sprintf("h=%d", rh)}
-			panicked := r.Guard("RemoveSuffrageExpelOperationsByHeight", info, func() {
-				if err := pool.RemoveSuffrageExpelOperationsByHeight(base.Height(rh)); err != nil {
-					r.Violation("RemoveByHeight:error", err.Error(), info)
-				}
-			})
-			if panicked {
-				ok = false
-				break
-			}
-			r.Count("remove_by_height_calls", 1)
-			gone := map[string]rec{}
-			for f, x := range model {
-				if x.End <= rh {
-					gone[f] = x
-					delete(model, f)
-				}
-			}
-			r.Count("remove_by_height_expected_removed", len(gone))
-			maxSet(r, "max_removed_by_one_remove_by_height", len(gone))
-			var after map[string]bool
-			after, ok = queryAll(fmt.Sprintf("after-remove-by-height(%d)", rh))
-			if !ok {
-				break
-			}
-			for f, x := range gone {
-				if after[f] {
-					r.Violation("RemoveByHeight:kept-operation-ended-at-or-before", fmt.Sprintf("remove-by-height(%d) kept %s", rh, x), info)
-				}
-			}
-			for f, x := range model {
-				if before[f] && !after[f] {
-					r.Violation("RemoveByHeight:removed-operation-ending-later", fmt.Sprintf("remove-by-height(%d) removed %s which ends after it", rh, x), info)
-				}
-			}
-			before = after
+		if large {
+			heightRounds(1)
+		} else {
+			heightRounds(1 + rng.Intn(4))
 		}
 
 		// remove by fact (incl. an unknown fact)
@@ -445,6 +476,14 @@ func run(r *vlib.Run, g *rig, ncases int) {
 			}
 		}
 
+		// and removals by height once more after the removal by fact
+		if ok && !large && rng.Intn(2) == 0 {
+			for f := range model {
+				before[f] = true
+			}
+			heightRounds(1 + rng.Intn(2))
+		}
+
 		if nontrivial && len(order) >= 2 {
 			r.Case(fp)
 		} else {
@@ -491,6 +530,40 @@ func run(r *vlib.Run, g *rig, ncases int) {
 			r.Count("lookup_calls", 1)
 			if !found {
 				r.Violation("Lookup:notfound-but-covering-exists:behind-later-ending-operation-of-node-starting-above-height", "directed: lookup(7,n0) over {n0[10,20], n0[6,9]} found nothing", info)
+			}
+		})
+		// directed: a removal, then an already ended operation is stored, then the same / a lower removal again
+		info2 := caseInfo{Case: -2, Ops: []string{"n0[10,20]", "n1[5,8]", "n0[6,9]"}, Phase: "directed: remove(10); set n1[3,6]; remove(10); set n1[2,4]; remove(7)"}
+		r.Case("directed:remove-set-ended-remove-again")
+		r.Guard("RemoveSuffrageExpelOperationsByHeight", info2, func() {
+			seenAt := func(h int64, op base.SuffrageExpelOperation) bool {
+				found := false
+				must(pool.TraverseSuffrageExpelOperations(ctx, base.Height(h), func(x base.SuffrageExpelOperation) (bool, error) {
+					if x.Hash().Equal(op.Hash()) {
+						found = true
+					}
+					return true, nil
+				}))
+				return found
+			}
+			must(pool.RemoveSuffrageExpelOperationsByHeight(10))
+			y := mk(n1, 3, 6)
+			if !seenAt(5, y) {
+				r.Violation("Traverse:missed-covering:no-later-ending-operation-starting-above-height", "directed: n1[3,6] stored after remove(10) is not visited at 5", info2)
+			}
+			must(pool.RemoveSuffrageExpelOperationsByHeight(10))
+			r.Count("remove_by_height_calls", 2)
+			if seenAt(5, y) {
+				r.Violation("RemoveByHeight:kept-operation-ended-at-or-before", "directed: remove(10); set n1[3,6]; remove(10) kept n1[3,6]", info2)
+			}
+			z := mk(n1, 2, 4)
+			must(pool.RemoveSuffrageExpelOperationsByHeight(7))
+			r.Count("remove_by_height_calls", 1)
+			if seenAt(3, z) {
+				r.Violation("RemoveByHeight:kept-operation-ended-at-or-before", "directed: remove(10); set n1[2,4]; remove(7) kept n1[2,4]", info2)
+			}
+			if !seenAt(15, later) {
+				r.Violation("RemoveByHeight:removed-operation-ending-later", "directed: n0[10,20] is gone after remove(10), remove(7)", info2)
 			}
 		})
 	}
